@@ -122,11 +122,24 @@ configurations (lengths and limits are compared as polynomials over the configur
 * the tree-view type definition (`XType`) denotes the schema.
 Bodies outside the recognised shapes are `opaque` (`Zrnt.Gen.SszFacts.opaqueMethods`, counted in the evidence):
 they are not covered by this theorem, only by the differential run. A row that stops checking is a failing
-`row_ok_<pkg>_<Type>` obligation and `checkType` evaluates to the offending method. -/
-theorem ssz_methods_agree : ∀ T ∈ types, checkType owners views T = none := by
-  intro T h
-  have := List.all_eq_true.mp all_rows_ok T h
-  simpa [Option.isNone_iff_eq_none] using this
+`row_ok_<pkg>_<Type>` obligation and `checkType` evaluates to the offending method. Rows listed in
+`Zrnt.Schema.Facts.knownDeviations` (recorded findings: a custom preset that changes `MAX_EXTRA_DATA_BYTES` or
+`BYTES_PER_LOGS_BLOOM` is ignored by zrnt) are exempt for exactly the recorded reason. -/
+theorem ssz_methods_agree : ∀ T ∈ types, T.name ∉ knownDeviations.map (·.1) → checkType owners views T = none := by
+  intro T h hdev
+  have hrow := List.all_eq_true.mp all_rows_ok T h
+  unfold rowOk at hrow
+  cases hc : checkType owners views T with
+  | none => rfl
+  | some r =>
+    exfalso
+    simp only [hc, List.any_eq_true, Bool.and_eq_true, beq_iff_eq] at hrow
+    obtain ⟨d, hd, hn, _⟩ := hrow
+    exact hdev (hn ▸ List.mem_map_of_mem hd)
+
+open Zrnt.Schema Zrnt.Schema.Facts Zrnt.Gen.SszFacts in
+/-- the rows exempted as recorded findings: exactly the two bellatrix preset values zrnt hard-codes -/
+theorem known_deviations_are : knownDeviations.map (·.1) = [n!"common.ExtraData", n!"common.LogsBloom"] := rfl
 
 open Zrnt.Schema Zrnt.Schema.Facts in
 /-- What "limits agree" in `ssz_methods_agree` means: two length expressions that `checkType` accepts as the
@@ -169,7 +182,8 @@ and on every well-typed value `Serialize = encode`, `ByteLength = byteLength`, `
 (ztyp's combinators are modelled at the level of whole scopes; the real ones are compared with the same
 specification by the differential run.) -/
 theorem checkType_sound_struct (H : Hash2) (c : Config) (hpos : ∀ k, 0 < c k) (hsync : 4 ≤ c n!"SYNC_COMMITTEE_SIZE")
-    (env : Env) (T : GoType) (hT : T ∈ types) (sfs : SFields) (fields : List GoField)
+    (env : Env) (T : GoType) (hT : T ∈ types) (hdev : T.name ∉ knownDeviations.map (·.1))
+    (sfs : SFields) (fields : List GoField)
     (hschema : Spec.lookup T.name = some (.container sfs)) (hdecl : T.decl = .struct fields)
     (henv : EnvOk H c env fields) :
     ∃ I, denoteStruct H c owners views env fields T = some I ∧
@@ -177,7 +191,7 @@ theorem checkType_sound_struct (H : Hash2) (c : Config) (hpos : ∀ k, 0 < c k) 
       ∀ v, WF ((STy.container sfs).eval c) v →
         I.ser v = encode ((STy.container sfs).eval c) v ∧ I.blen v = byteLength ((STy.container sfs).eval c) v ∧
         I.root v = htr H ((STy.container sfs).eval c) v := by
-  obtain ⟨hs, hdes, hser, hbl, hfl, hroot⟩ := extract_struct owners views T sfs fields (ssz_methods_agree T hT) hschema hdecl
+  obtain ⟨hs, hdes, hser, hbl, hfl, hroot⟩ := extract_struct owners views T sfs fields (ssz_methods_agree T hT hdev) hschema hdecl
   -- the schema entry is legal under the configuration
   have hmem : (T.name, STy.container sfs) ∈ Spec.table := by
     unfold Spec.lookup at hschema
@@ -233,14 +247,14 @@ method bodies evaluated under `c` — is the specification at `List[elem, limit]
 `Deserialize` and by `HashTreeRoot` is the schema's limit under every configuration, and the packing helper fits
 the element type. -/
 theorem checkType_sound_list (H : Hash2) (c : Config) (hpos : ∀ k, 0 < c k) (hsync : 4 ≤ c n!"SYNC_COMMITTEE_SIZE")
-    (T : GoType) (hT : T ∈ types) (elem : STy) (lim : LExpr)
+    (T : GoType) (hT : T ∈ types) (hdev : T.name ∉ knownDeviations.map (·.1)) (elem : STy) (lim : LExpr)
     (hschema : Spec.lookup T.name = some (.list elem lim)) :
     ∃ I, denoteList H c owners views (specImpl H (elem.eval c)) T = some I ∧
       I.des = decode ((STy.list elem lim).eval c) ∧ I.flen = ((STy.list elem lim).eval c).fixedLen ∧
       ∀ v, WF ((STy.list elem lim).eval c) v →
         I.ser v = encode ((STy.list elem lim).eval c) v ∧ I.blen v = byteLength ((STy.list elem lim).eval c) v ∧
         I.root v = htr H ((STy.list elem lim).eval c) v := by
-  obtain ⟨hdes, hser, hbl, hfl, hroot⟩ := extract_list owners views T elem lim (ssz_methods_agree T hT) hschema
+  obtain ⟨hdes, hser, hbl, hfl, hroot⟩ := extract_list owners views T elem lim (ssz_methods_agree T hT hdev) hschema
   have hleg := schema_types_legal c hpos hsync _ (lookup_mem _ _ hschema)
   simp only [STy.eval, Ty.Legal] at hleg
   have hop := List.all_eq_true.mp no_opaque_bodies T hT
